@@ -35,13 +35,19 @@ import (
 	"golang.org/x/image/font/gofont/goregular"
 	"golang.org/x/text/language"
 
+	"seehuhn.de/go/geom/matrix"
 	"seehuhn.de/go/postscript/cid"
+	"seehuhn.de/go/postscript/funit"
+	"seehuhn.de/go/postscript/type1"
 
 	"seehuhn.de/go/sfnt"
 	"seehuhn.de/go/sfnt/cff"
+	"seehuhn.de/go/sfnt/cmap"
 	"seehuhn.de/go/sfnt/glyf"
 	"seehuhn.de/go/sfnt/glyph"
+	"seehuhn.de/go/sfnt/header"
 	"seehuhn.de/go/sfnt/internal/debug"
+	"seehuhn.de/go/sfnt/kern"
 	"seehuhn.de/go/sfnt/opentype/classdef"
 	"seehuhn.de/go/sfnt/opentype/gdef"
 	"seehuhn.de/go/sfnt/opentype/gtab"
@@ -152,12 +158,187 @@ func concAddGtab(f *sfnt.Font) {
 
 var concFontIDs = []string{"cff", "cffgtab", "cffgsub", "cid", "ttf", "ttfgtab", "ttfitalic", "ttfmono", "ttfhead"}
 
+// concNameFonts: small fonts whose glyph-name lists make MakeGlyphNames (and everything built on
+// it) take its repair paths: duplicates are blanked, empty names inferred, slot 0 renamed — all of
+// which must happen in the RESULT, never in the shared font.
+var concNameFonts = []string{"sttf", "sttfdup", "sttfempty", "sttfnotdef0", "sttfshort", "sttfnonames",
+	"cffdup", "cffempty", "cffnotdef0"}
+
+// concShapeFonts: variants taken from the interesting-input lists of the other properties.
+var concShapeFonts = []string{"sttfnest", "sttfkern", "sttf12", "sttfgtab", "cidmulti", "cff12"}
+
 func concReadTTF(data []byte) *sfnt.Font {
 	f, err := sfnt.Read(bytes.NewReader(data))
 	if err != nil {
 		panic(err)
 	}
 	return f
+}
+
+const concSmallRunes = "ABCDEFGHIJKLMNOPQRSTUVWXYZabcdefghijklmnopqrstuvwxyz 0123456789.,-ÄÖÜäöüéèàçñ"
+
+// concSmallTTF cuts goregular down to ~80 glyphs (by hand, not through Subset): the listed
+// runes plus the components of their composite glyphs, with a complete list of distinct names.
+func concSmallTTF() *sfnt.Font {
+	f := concReadTTF(goregular.TTF)
+	o := f.Outlines.(*glyf.Outlines)
+	cm, err := f.CMapTable.GetBest()
+	if err != nil {
+		panic(err)
+	}
+	newGid := map[glyph.ID]glyph.ID{0: 0}
+	gids := []glyph.ID{0}
+	add := func(g glyph.ID) {
+		if _, ok := newGid[g]; !ok {
+			newGid[g] = glyph.ID(len(gids))
+			gids = append(gids, g)
+		}
+	}
+	sub := cmap.Format4{}
+	for _, r := range concSmallRunes {
+		g := cm.Lookup(r)
+		if g == 0 {
+			continue
+		}
+		add(g)
+		sub[uint16(r)] = newGid[g]
+	}
+	for i := 0; i < len(gids); i++ { // closure over components
+		for _, c := range o.Glyphs[gids[i]].Components() {
+			add(c)
+		}
+	}
+	no := &glyf.Outlines{Tables: o.Tables, Maxp: o.Maxp}
+	for i, g := range gids {
+		no.Glyphs = append(no.Glyphs, o.Glyphs[g].FixComponents(newGid))
+		no.Widths = append(no.Widths, o.Widths[g])
+		name := fmt.Sprintf("g%03d", i)
+		if o.Names != nil && o.Names[g] != "" {
+			name = o.Names[g]
+		}
+		no.Names = append(no.Names, name)
+	}
+	no.Names[0] = ".notdef"
+	seen := map[string]bool{}
+	for i, n := range no.Names {
+		if seen[n] {
+			no.Names[i] = fmt.Sprintf("%s.alt%d", n, i)
+		}
+		seen[no.Names[i]] = true
+	}
+	f.Outlines = no
+	f.InstallCMap(sub)
+	f.Gsub, f.Gpos, f.Gdef = nil, nil, nil
+	return f
+}
+
+// concNest appends composites nested three deep: c1 = A + period, c2 = c1 + comma, c3 = c2 + c1.
+func concNest(f *sfnt.Font) {
+	o := f.Outlines.(*glyf.Outlines)
+	cm, _ := f.CMapTable.GetBest()
+	comp := func(parts ...glyph.ID) glyph.ID {
+		var cs []glyf.GlyphComponent
+		var box funit.Rect16
+		for i, p := range parts {
+			fl := glyf.FlagArgsAreXYValues | glyf.FlagRoundXYToGrid
+			if i+1 < len(parts) {
+				fl |= glyf.FlagMoreComponents
+			}
+			cs = append(cs, glyf.GlyphComponent{Flags: fl, GlyphIndex: p, Data: []byte{byte(10 * i), byte(3 * i)}})
+			if g := o.Glyphs[p]; g != nil {
+				if i == 0 {
+					box = g.Rect16
+				} else {
+					box.Extend(g.Rect16)
+				}
+			}
+		}
+		o.Glyphs = append(o.Glyphs, &glyf.Glyph{Rect16: box, Data: glyf.CompositeGlyph{Components: cs}})
+		o.Widths = append(o.Widths, o.Widths[parts[0]])
+		if o.Names != nil {
+			o.Names = append(o.Names, fmt.Sprintf("nest%d", len(o.Glyphs)))
+		}
+		return glyph.ID(len(o.Glyphs) - 1)
+	}
+	c1 := comp(cm.Lookup('A'), cm.Lookup('.'))
+	c2 := comp(c1, cm.Lookup(','))
+	c3 := comp(c2, c1)
+	sub := cmap.Format4{}
+	lo, hi := cm.CodeRange()
+	for r := lo; r <= hi; r++ {
+		if g := cm.Lookup(r); g != 0 {
+			sub[uint16(r)] = g
+		}
+	}
+	sub['#'], sub['$'], sub['%'] = c1, c2, c3
+	f.InstallCMap(sub)
+}
+
+// concWithKern writes the font with an added "kern" table and reads the file back, so that
+// sfnt.Read builds the GPOS pair-adjustment lookup from it.
+func concWithKern(f *sfnt.Font) *sfnt.Font {
+	cm, _ := f.CMapTable.GetBest()
+	k := kern.Info{}
+	pairs := []string{"AV", "AW", "AT", "To", "Ta", "VA", "WA", "LT", "Ty", "Yo"}
+	for i, p := range pairs {
+		k[glyph.Pair{Left: cm.Lookup(rune(p[0])), Right: cm.Lookup(rune(p[1]))}] = funit.Int16(-20 - 7*i)
+	}
+	var buf bytes.Buffer
+	if _, err := f.Write(&buf); err != nil {
+		panic(err)
+	}
+	r := bytes.NewReader(buf.Bytes())
+	h, err := header.Read(r)
+	if err != nil {
+		panic(err)
+	}
+	tabs := map[string][]byte{}
+	for name := range h.Toc {
+		tabs[name], err = h.ReadTableBytes(r, name)
+		if err != nil {
+			panic(err)
+		}
+	}
+	tabs["kern"] = k.Encode()
+	var out bytes.Buffer
+	if _, err := header.Write(&out, h.ScalerType, tabs); err != nil {
+		panic(err)
+	}
+	return concReadTTF(out.Bytes())
+}
+
+// concCmap12 installs a format 12 cmap that also maps supplementary-plane code points.
+func concCmap12(f *sfnt.Font) {
+	cm, _ := f.CMapTable.GetBest()
+	sub := cmap.Format12{}
+	lo, hi := cm.CodeRange()
+	for r := lo; r <= hi; r++ {
+		if g := cm.Lookup(r); g != 0 {
+			sub[uint32(r)] = g
+		}
+	}
+	for i, r := range "ABCDEFGHIJ" {
+		sub[0x1D400+uint32(i)] = cm.Lookup(r) // MATHEMATICAL BOLD CAPITAL A..
+	}
+	f.InstallCMap(sub)
+}
+
+// concMultiFD turns the debug font into a CID-keyed font with three font dictionaries.
+func concMultiFD(f *sfnt.Font) {
+	o := f.Outlines.(*cff.Outlines)
+	p0 := o.Private[0]
+	p1, p2 := *p0, *p0
+	p1.BlueScale, p1.StdHW = 0.05, 40
+	p2.BlueFuzz, p2.StdVW = 2, 90
+	o.Private = []*type1.PrivateDict{p0, &p1, &p2}
+	o.FontMatrices = []matrix.Matrix{matrix.Identity, {1.1, 0, 0, 1.1, 0, 0}, {1, 0, 0.2, 1, 0, 0}}
+	o.FDSelect = func(gid glyph.ID) int { return int(gid) % 3 }
+	g2c := make([]cid.CID, len(o.Glyphs))
+	for i := range g2c {
+		g2c[i] = cid.CID(3*i + 1)
+	}
+	g2c[0] = 0
+	o.MakeCIDKeyed(&cid.SystemInfo{Registry: "Adobe", Ordering: "Japan1", Supplement: 6}, g2c)
 }
 
 // concFont builds a fresh font from its id (nothing is shared between two calls except the
@@ -181,6 +362,56 @@ func concFont(id string) *sfnt.Font {
 				g2c[i] = cid.CID(2 * i)
 			}
 			o.MakeCIDKeyed(&cid.SystemInfo{Registry: "Adobe", Ordering: "Identity", Supplement: 0}, g2c)
+		}
+	case strings.HasPrefix(id, "sttf"):
+		f = concSmallTTF()
+		o := f.Outlines.(*glyf.Outlines)
+		switch id {
+		case "sttf":
+		case "sttfdup": // two pairs of glyphs share a name
+			o.Names[7], o.Names[20] = o.Names[5], o.Names[5]
+			o.Names[len(o.Names)-1] = o.Names[2]
+		case "sttfempty":
+			for i := 3; i < len(o.Names); i += 4 {
+				o.Names[i] = ""
+			}
+		case "sttfnotdef0":
+			o.Names[0] = "zero"
+		case "sttfshort":
+			o.Names = o.Names[: len(o.Names)-3 : len(o.Names)-3]
+		case "sttfnonames":
+			o.Names = nil
+		case "sttfnest":
+			concNest(f)
+		case "sttfkern":
+			f = concWithKern(f)
+		case "sttf12":
+			concCmap12(f)
+		case "sttfgtab":
+			concAddGtab(f)
+			f.Gdef = nil
+		default:
+			panic("unknown font id " + id)
+		}
+	case id == "cffdup", id == "cffempty", id == "cffnotdef0", id == "cidmulti", id == "cff12":
+		f = debug.MakeSimpleFont()
+		f.CreationTime, f.ModificationTime = concFixedTime, concFixedTime
+		o := f.Outlines.(*cff.Outlines)
+		switch id {
+		case "cffdup":
+			o.Glyphs[6].Name, o.Glyphs[9].Name = o.Glyphs[4].Name, o.Glyphs[4].Name
+			o.Glyphs[len(o.Glyphs)-1].Name = o.Glyphs[5].Name
+		case "cffempty":
+			for i := 2; i < len(o.Glyphs); i += 3 {
+				o.Glyphs[i].Name = ""
+			}
+		case "cffnotdef0":
+			o.Glyphs[0].Name = "zero"
+			o.Glyphs[1].Name = ".notdef"
+		case "cidmulti":
+			concMultiFD(f)
+		case "cff12":
+			concCmap12(f)
 		}
 	case id == "ttf":
 		f = concReadTTF(goregular.TTF)
@@ -332,6 +563,9 @@ var concOps = []concOp{
 				glyphs = append(glyphs, glyph.ID(g))
 			}
 		}
+		if r.intn(3) == 0 && !seen[n-1] && n > 1 {
+			glyphs = append(glyphs, glyph.ID(n-1)) // the last glyph: deepest nested composite, if any
+		}
 		sort.Slice(glyphs, func(i, j int) bool { return glyphs[i] < glyphs[j] })
 		sub := f.Subset(glyphs)
 		var buf bytes.Buffer
@@ -379,6 +613,14 @@ var concOps = []concOp{
 	}},
 	{"glyphnames", "", func(f *sfnt.Font, r *concRng) string {
 		return concShort(strings.Join(f.MakeGlyphNames(), ","))
+	}},
+	{"glyphname", "", func(f *sfnt.Font, r *concRng) string {
+		var b strings.Builder
+		for i := 0; i < 4; i++ {
+			b.WriteString(f.GlyphName(glyph.ID(r.intn(f.NumGlyphs()))))
+			b.WriteByte(',')
+		}
+		return b.String()
 	}},
 	{"fontinfo", "", func(f *sfnt.Font, r *concRng) string {
 		return concShort(fmt.Sprintf("%+v", *f.GetFontInfo()))
@@ -745,6 +987,8 @@ func areaConc(c *Ctx) {
 	// applicable operations per font (computed once on throw-away instances)
 	appl := map[string][]string{}
 	fonts := append([]string{}, concFontIDs...)
+	fonts = append(fonts, concNameFonts...)
+	fonts = append(fonts, concShapeFonts...)
 	for _, i := range []int{0, 7, 19, 33, 48, 61, 77, 90, 104, 118} {
 		if i < len(testcases.Gsub) {
 			fonts = append(fonts, fmt.Sprintf("tc%d", i))
@@ -763,8 +1007,13 @@ func areaConc(c *Ctx) {
 		allNames[i] = concOps[i].name
 	}
 	pickFont := func() string {
-		if c.Rng.Chance(7, 10) {
+		switch x := c.Rng.Intn(10); {
+		case x < 4:
 			return Pick(c.Rng, concFontIDs)
+		case x < 6:
+			return Pick(c.Rng, concNameFonts)
+		case x < 8:
+			return Pick(c.Rng, concShapeFonts)
 		}
 		return Pick(c.Rng, fonts)
 	}
@@ -799,6 +1048,20 @@ func areaConc(c *Ctx) {
 		drain()
 	}
 	i := 0
+	// every run: the name-dependent operations on every font with an irregular name list, and the
+	// structure-dependent ones on every shape variant (small fonts, cheap)
+	for _, id := range concNameFonts {
+		for _, op := range []string{"glyphnames", "glyphname", "write", "subset"} {
+			pure(op, id)
+			i++
+		}
+	}
+	for _, id := range concShapeFonts {
+		for _, op := range []string{"subset", "write", "layout", "glyphnames"} {
+			pure(op, id)
+			i++
+		}
+	}
 	if thorough {
 		for _, id := range concFontIDs {
 			for _, op := range allNames {
